@@ -29,7 +29,7 @@ BOUNDED_WHAT = {
     'C09': 'libxcp::backup::{is_num_backup, next_backup_num, has_backup, get_backup_path} (string/regex/ReadDir code outside Verus) and the --backup value table (Backup::from_str)',
     'C15': 'the --reflink value table (Reflink::from_str: string matching, outside Verus)',
     'C16': 'rejection of unknown --reflink/--backup/--driver values and the --driver table (FromStr impls: string matching, outside Verus); expand_globs (iterator adapters over the glob crate, outside Verus): a pattern that selects nothing is a missing source',
-    'C02': 'expand_globs (iterator adapters over the glob crate, outside Verus): the expansion is the concatenation, in command-line order, of what each pattern selects',
+    'C02': 'expand_globs (iterator adapters over the glob crate, outside Verus): the expansion is exactly the set of names the patterns select',
 }
 
 
